@@ -5,6 +5,7 @@ package neuronjson
 
 import (
 	"fmt"
+	"strconv"
 	"strings"
 
 	"github.com/janelia-flyem/dvid/datastore"
@@ -57,6 +58,11 @@ func NewTKey(key string) (storage.TKey, error) {
 	// holding a zero byte would make a shorter key a prefix of it.
 	if strings.IndexByte(key, 0) >= 0 {
 		return nil, fmt.Errorf("key %q contains a zero byte", key)
+	}
+	// Keys are body ids and the in-memory database addresses an annotation by the parsed number, so
+	// the store uses one spelling per number as well: "007" is the annotation "7".
+	if bodyid, err := strconv.ParseUint(key, 10, 64); err == nil {
+		key = strconv.FormatUint(bodyid, 10)
 	}
 	return storage.NewTKey(keyAnnotation, append([]byte(key), 0)), nil
 }
